@@ -137,6 +137,7 @@ template <class A> struct World {
     size_t buflen = 0;
     std::set<int> borrows;      // indices of objects whose memory (text buffer or owned blocks) this one points into
     UriMemoryManager *mm = nullptr;
+    std::string origin;         // how it came to be: P/W/R/B, then every in-place step that succeeded on it (N, O)
   };
   std::vector<std::unique_ptr<Obj>> objs;
   UriMemoryManager *defaultMm = nullptr;  // manager for new objects (nullptr = libc)
@@ -192,6 +193,7 @@ template <class A> struct World {
     o.live = true;
     o.valid = r.rc == 0;
     o.borrows = {k};
+    o.origin = "P";
     r.produced = o.valid ? k : -1;
     return r;
   }
@@ -211,6 +213,7 @@ template <class A> struct World {
     o.live = true;
     o.valid = r.rc == 0;
     if (o.valid) { o.borrows = deps_of(i); for (int x : deps_of(j)) o.borrows.insert(x); o.borrows.erase(k); r.produced = k; }
+    o.origin = "R";
     return r;
   }
   Res removebase(int i, int j, int dr) {
@@ -223,6 +226,7 @@ template <class A> struct World {
     o.live = true;
     o.valid = r.rc == 0;
     if (o.valid) { o.borrows = deps_of(i); for (int x : deps_of(j)) o.borrows.insert(x); o.borrows.erase(k); r.produced = k; }
+    o.origin = "B";
     return r;
   }
   // in-place operations are only legal when nobody borrows this object's memory
@@ -234,6 +238,7 @@ template <class A> struct World {
     r.rc = A::NormalizeSyntaxExMm(&o.uri, mask, o.mm); }
     if (r.rc != 0) { o.valid = false; return r; }
     if (o.uri.owner) o.borrows.clear();
+    if (mask) o.origin += 'N';
     r.produced = i;
     return r;
   }
@@ -245,6 +250,7 @@ template <class A> struct World {
     r.rc = A::MakeOwnerMm(&o.uri, o.mm); }
     if (r.rc != 0) { o.valid = false; return r; }
     o.borrows.clear();
+    o.origin += 'O';
     r.produced = i;
     return r;
   }
@@ -256,7 +262,9 @@ template <class A> struct World {
     bool ok;
     { Bracket br(this, &at(i).uri, nullptr, "uriToString/uriToStringCharsRequired"); ok = to_string<A>(at(i).uri, &t); }
     if (!ok) { r.skipped = true; return r; }
-    return parse(t);
+    r = parse(t);
+    objs.back()->origin = "W";
+    return r;
   }
   Res dispose(int i) {
     Res r;
@@ -324,6 +332,30 @@ template <class A> struct World {
     for (auto &o : objs) if (o->live) { A::FreeUriMembersMm(&o->uri, o->mm); o->live = false; }
   }
   ~World() { release_all(); }
+
+  // --- library-made operands for the single-call properties (C06, C08, C09, C10) ---------------------------------
+  // The text of object k, provided the object reads back from that text exactly as it is held (C07 is what promises
+  // that; an object for which it does not hold is not used as an operand, and counted).
+  bool faithful_text(int k, std::string *text) {
+    if (!at(k).valid) return false;
+    if (!to_string<A>(at(k).uri, text)) return false;
+    Parsed<A> q;
+    parse_via<A>(q, PE_SINGLE_EX, widen<Ch>(*text));
+    if (q.rc != 0) return false;
+    return snapshot<A>(q.uri).sameAs(snapshot<A>(at(k).uri));
+  }
+  // valid objects, those that are more than a plain parse first (latest first), then the parsed ones
+  std::vector<int> made_first() {
+    std::vector<int> v;
+    for (int k = size() - 1; k >= 0; k--) if (at(k).valid && at(k).origin != "P") v.push_back(k);
+    for (int k = size() - 1; k >= 0; k--) if (at(k).valid && at(k).origin == "P") v.push_back(k);
+    return v;
+  }
+  std::vector<int> valid_objects() {
+    std::vector<int> v;
+    for (int k = 0; k < size(); k++) if (at(k).valid) v.push_back(k);
+    return v;
+  }
 };
 
 }  // namespace vf
